@@ -31,7 +31,7 @@ func genHostmap(c *hx.Ctx) {
 
 // ---- literals ---------------------------------------------------------------------------------------
 
-func u32s(xs []uint32) []uint64 {
+func hmU32s(xs []uint32) []uint64 {
 	r := make([]uint64, len(xs))
 	for i, x := range xs {
 		r[i] = uint64(x)
@@ -39,7 +39,7 @@ func u32s(xs []uint32) []uint64 {
 	return r
 }
 
-func kvLit(xs []nebula.VerifKV) string {
+func hmKvLit(xs []nebula.VerifHMKV) string {
 	s := make([]string, len(xs))
 	for i, e := range xs {
 		s[i] = hx.Tuple(hx.N(e.K), hx.N(e.V))
@@ -47,7 +47,7 @@ func kvLit(xs []nebula.VerifKV) string {
 	return hx.List(s)
 }
 
-func klLit(xs []nebula.VerifKL) string {
+func hmKlLit(xs []nebula.VerifHMKL) string {
 	s := make([]string, len(xs))
 	for i, e := range xs {
 		s[i] = hx.Tuple(hx.N(e.K), hx.NList(e.L))
@@ -55,23 +55,23 @@ func klLit(xs []nebula.VerifKL) string {
 	return hx.List(s)
 }
 
-// kvDelta: entries of cur that are new or changed, and keys of old that are gone (both sorted by key).
-func kvDelta(old, cur []nebula.VerifKV) string {
+// hmKvDelta: entries of cur that are new or changed, and keys of old that are gone (both sorted by key).
+func hmKvDelta(old, cur []nebula.VerifHMKV) string {
 	var s []string
 	for _, e := range cur {
-		if v, ok := kvGet(old, e.K); !ok || v != e.V {
+		if v, ok := hmKvGet(old, e.K); !ok || v != e.V {
 			s = append(s, hx.Tuple(hx.N(e.K), hx.Some(hx.N(e.V))))
 		}
 	}
 	for _, e := range old {
-		if _, ok := kvGet(cur, e.K); !ok {
+		if _, ok := hmKvGet(cur, e.K); !ok {
 			s = append(s, hx.Tuple(hx.N(e.K), "None"))
 		}
 	}
 	return hx.List(s)
 }
 
-func klGet(xs []nebula.VerifKL, k uint64) ([]uint64, bool) {
+func hmKlGet(xs []nebula.VerifHMKL, k uint64) ([]uint64, bool) {
 	for _, e := range xs {
 		if e.K == k {
 			return e.L, true
@@ -80,7 +80,7 @@ func klGet(xs []nebula.VerifKL, k uint64) ([]uint64, bool) {
 	return nil, false
 }
 
-func u64sEq(a, b []uint64) bool {
+func hmU64sEq(a, b []uint64) bool {
 	if len(a) != len(b) {
 		return false
 	}
@@ -92,35 +92,35 @@ func u64sEq(a, b []uint64) bool {
 	return true
 }
 
-func klDelta(old, cur []nebula.VerifKL) string {
+func hmKlDelta(old, cur []nebula.VerifHMKL) string {
 	var s []string
 	for _, e := range cur {
-		if l, ok := klGet(old, e.K); !ok || !u64sEq(l, e.L) {
+		if l, ok := hmKlGet(old, e.K); !ok || !hmU64sEq(l, e.L) {
 			s = append(s, hx.Tuple(hx.N(e.K), hx.Some(hx.NList(e.L))))
 		}
 	}
 	for _, e := range old {
-		if _, ok := klGet(cur, e.K); !ok {
+		if _, ok := hmKlGet(cur, e.K); !ok {
 			s = append(s, hx.Tuple(hx.N(e.K), "None"))
 		}
 	}
 	return hx.List(s)
 }
 
-func dumpLit(d nebula.VerifHMDump) string {
+func hmDumpLit(d nebula.VerifHMDump) string {
 	is := make([]string, len(d.Infos))
 	for i, hi := range d.Infos {
-		is[i] = hiLit(hi)
+		is[i] = hmHiLit(hi)
 	}
-	return hx.App("mkSt", hx.List(is), kvLit(d.Hosts), klLit(d.More), kvLit(d.Indexes), kvLit(d.Remote), kvLit(d.Relays),
-		kvLit(d.PVpn), kvLit(d.PIdx), "[]")
+	return hx.App("mkSt", hx.List(is), hmKvLit(d.Hosts), hmKlLit(d.More), hmKvLit(d.Indexes), hmKvLit(d.Remote), hmKvLit(d.Relays),
+		hmKvLit(d.PVpn), hmKvLit(d.PIdx), "[]")
 }
 
-func hiLit(h nebula.VerifHI) string {
-	return hx.Tuple(hx.N(h.ID), hx.App("mkHI", hx.NList(h.Addrs), hx.N(uint64(h.Local)), hx.N(uint64(h.Remote)), hx.NList(u32s(h.Relays))))
+func hmHiLit(h nebula.VerifHMInfo) string {
+	return hx.Tuple(hx.N(h.ID), hx.App("mkHI", hx.NList(h.Addrs), hx.N(uint64(h.Local)), hx.N(uint64(h.Remote)), hx.NList(hmU32s(h.Relays))))
 }
 
-func hiEq(a, b nebula.VerifHI) bool {
+func hmHiEq(a, b nebula.VerifHMInfo) bool {
 	if a.Local != b.Local || a.Remote != b.Remote || len(a.Addrs) != len(b.Addrs) || len(a.Relays) != len(b.Relays) {
 		return false
 	}
@@ -144,7 +144,7 @@ type hmHist struct {
 	v        *nebula.VerifHM
 	nextID   uint64
 	prev     nebula.VerifHMDump
-	infos    map[uint64]nebula.VerifHI
+	infos    map[uint64]nebula.VerifHMInfo
 	steps    []string
 	ops      []any
 	feat     map[string]bool
@@ -153,12 +153,12 @@ type hmHist struct {
 	peers    [][]uint64
 }
 
-func newHist(c *hx.Ctx, idxSpace int) *hmHist {
-	return &hmHist{c: c, v: nebula.VerifNewHM(), nextID: 1, infos: map[uint64]nebula.VerifHI{}, feat: map[string]bool{},
+func hmNewHist(c *hx.Ctx, idxSpace int) *hmHist {
+	return &hmHist{c: c, v: nebula.VerifNewHM(), nextID: 1, infos: map[uint64]nebula.VerifHMInfo{}, feat: map[string]bool{},
 		unsafeAt: -1, idxSpace: idxSpace}
 }
 
-func kvGet(xs []nebula.VerifKV, k uint64) (uint64, bool) {
+func hmKvGet(xs []nebula.VerifHMKV, k uint64) (uint64, bool) {
 	for _, e := range xs {
 		if e.K == k {
 			return e.V, true
@@ -172,11 +172,11 @@ func (h *hmHist) unsafeDelete(id uint64) bool {
 	if !ok {
 		return false
 	}
-	if o, ok := kvGet(h.prev.Indexes, uint64(hi.Local)); ok && o != id {
+	if o, ok := hmKvGet(h.prev.Indexes, uint64(hi.Local)); ok && o != id {
 		return true
 	}
 	for _, r := range hi.Relays {
-		if o, ok := kvGet(h.prev.Relays, uint64(r)); ok && o != id {
+		if o, ok := hmKvGet(h.prev.Relays, uint64(r)); ok && o != id {
 			return true
 		}
 	}
@@ -188,7 +188,7 @@ func (h *hmHist) unsafePendDelete(id uint64) bool {
 	if !ok {
 		return false
 	}
-	o, ok := kvGet(h.prev.PIdx, uint64(hi.Local))
+	o, ok := hmKvGet(h.prev.PIdx, uint64(hi.Local))
 	return ok && o != id
 }
 
@@ -198,15 +198,15 @@ func (h *hmHist) record(opLit, outLit string, desc any) {
 	var delta []string
 	for _, hi := range d.Infos {
 		old, ok := h.infos[hi.ID]
-		if !ok || !hiEq(old, hi) {
-			delta = append(delta, hiLit(hi))
+		if !ok || !hmHiEq(old, hi) {
+			delta = append(delta, hmHiLit(hi))
 			h.infos[hi.ID] = hi
 		}
 	}
 	// an eviction: a hostinfo left Indexes although the operation was not a delete of it
 	if !strings.HasPrefix(opLit, "(ODelete") {
 		for _, e := range h.prev.Indexes {
-			if v, ok := kvGet(d.Indexes, e.K); !ok || v != e.V {
+			if v, ok := hmKvGet(d.Indexes, e.K); !ok || v != e.V {
 				h.feat["evict"] = true
 			}
 		}
@@ -215,14 +215,14 @@ func (h *hmHist) record(opLit, outLit string, desc any) {
 		h.feat["multi"] = true
 	}
 	p := h.prev
-	h.steps = append(h.steps, hx.App("mkStep", opLit, outLit, hx.List(delta), kvDelta(p.Hosts, d.Hosts), klDelta(p.More, d.More),
-		kvDelta(p.Indexes, d.Indexes), kvDelta(p.Remote, d.Remote), kvDelta(p.Relays, d.Relays), kvDelta(p.PVpn, d.PVpn),
-		kvDelta(p.PIdx, d.PIdx)))
+	h.steps = append(h.steps, hx.App("mkStep", opLit, outLit, hx.List(delta), hmKvDelta(p.Hosts, d.Hosts), hmKlDelta(p.More, d.More),
+		hmKvDelta(p.Indexes, d.Indexes), hmKvDelta(p.Remote, d.Remote), hmKvDelta(p.Relays, d.Relays), hmKvDelta(p.PVpn, d.PVpn),
+		hmKvDelta(p.PIdx, d.PIdx)))
 	h.ops = append(h.ops, desc)
 	h.prev = d
 }
 
-func idxOut(idx uint32, ok bool) string {
+func hmIdxOut(idx uint32, ok bool) string {
 	if !ok {
 		return "(RIdx None)"
 	}
@@ -239,14 +239,14 @@ func (h *hmHist) opStart(addr uint64) {
 func (h *hmHist) opAlloc(id uint64, script []uint32) {
 	if !h.v.Known(id) || !h.v.PendingByAddr(id) || h.v.LocalIndex(id) != 0 {
 		// handleOutbound would not reach allocateIndex for this hostinfo
-		h.record(hx.App("OAlloc", hx.N(id), hx.NList(u32s(script))), "RNone", []any{"alloc", id, u32s(script), "n/a"})
+		h.record(hx.App("OAlloc", hx.N(id), hx.NList(hmU32s(script))), "RNone", []any{"alloc", id, hmU32s(script), "n/a"})
 		return
 	}
 	idx, ok, served := h.v.Alloc(id, script)
 	if len(served) > 2 {
 		h.feat["collide"] = true
 	}
-	h.record(hx.App("OAlloc", hx.N(id), hx.NList(u32s(served))), idxOut(idx, ok), []any{"alloc", id, u32s(served)})
+	h.record(hx.App("OAlloc", hx.N(id), hx.NList(hmU32s(served))), hmIdxOut(idx, ok), []any{"alloc", id, hmU32s(served)})
 }
 
 func (h *hmHist) opComplete(id uint64, addrs []uint64, remote uint32) {
@@ -280,8 +280,8 @@ func (h *hmHist) opResp(addrs []uint64, remote uint32, script []uint32) {
 	if out == 1 {
 		h.feat["collide"] = true
 	}
-	h.record(hx.App("OResp", hx.N(id), hx.NList(addrs), hx.N(uint64(remote)), hx.NList(u32s(served))),
-		hx.App("RResp", hx.N(uint64(out)), hx.N(uint64(local))), []any{"resp", id, addrs, remote, u32s(served)})
+	h.record(hx.App("OResp", hx.N(id), hx.NList(addrs), hx.N(uint64(remote)), hx.NList(hmU32s(served))),
+		hx.App("RResp", hx.N(uint64(out)), hx.N(uint64(local))), []any{"resp", id, addrs, remote, hmU32s(served)})
 }
 
 // a stale delete whose index is held by another tunnel by now (fix F16: it must leave that entry alone)
@@ -321,14 +321,14 @@ func (h *hmHist) opPromote(id uint64) {
 
 func (h *hmHist) opAddRelay(id, peer uint64, script []uint32) {
 	if !h.v.Known(id) {
-		h.record(hx.App("OAddRelay", hx.N(id), hx.N(peer), hx.NList(u32s(script))), "RNone", []any{"relay", id, "n/a"})
+		h.record(hx.App("OAddRelay", hx.N(id), hx.N(peer), hx.NList(hmU32s(script))), "RNone", []any{"relay", id, "n/a"})
 		return
 	}
 	idx, ok, served := h.v.AddRelay(id, peer, script)
 	if ok {
 		h.feat["relay"] = true
 	}
-	h.record(hx.App("OAddRelay", hx.N(id), hx.N(peer), hx.NList(u32s(served))), idxOut(idx, ok), []any{"relay", id, peer, u32s(served)})
+	h.record(hx.App("OAddRelay", hx.N(id), hx.N(peer), hx.NList(hmU32s(served))), hmIdxOut(idx, ok), []any{"relay", id, peer, hmU32s(served)})
 }
 
 func (h *hmHist) opPendDelete(id uint64, viaTimeout bool) {
@@ -359,7 +359,7 @@ func (h *hmHist) pendingSet() map[uint64]bool {
 	return m
 }
 
-func sortedKeys(m map[uint64]bool) []uint64 {
+func hmSortedKeys(m map[uint64]bool) []uint64 {
 	r := make([]uint64, 0, len(m))
 	for k := range m {
 		r = append(r, k)
@@ -392,9 +392,9 @@ func (h *hmHist) anyID(wLive, wPend, wDead int) uint64 {
 	var ok bool
 	switch {
 	case r < wLive:
-		id, ok = h.pickFrom(sortedKeys(live))
+		id, ok = h.pickFrom(hmSortedKeys(live))
 	case r < wLive+wPend:
-		id, ok = h.pickFrom(sortedKeys(pend))
+		id, ok = h.pickFrom(hmSortedKeys(pend))
 	default:
 		id, ok = h.pickFrom(dead)
 	}
@@ -413,7 +413,7 @@ func (h *hmHist) cands(relay bool, n int) []uint32 {
 		}
 		for _, hi := range h.infos {
 			for _, r := range hi.Relays {
-				if _, ok := kvGet(h.prev.Relays, uint64(r)); !ok {
+				if _, ok := hmKvGet(h.prev.Relays, uint64(r)); !ok {
 					reuse = append(reuse, r)
 				}
 			}
@@ -428,10 +428,10 @@ func (h *hmHist) cands(relay bool, n int) []uint32 {
 		live, pend := h.liveSet(), h.pendingSet()
 		for id, hi := range h.infos {
 			if !live[id] && !pend[id] && hi.Local != 0 {
-				if _, ok := kvGet(h.prev.Indexes, uint64(hi.Local)); ok {
+				if _, ok := hmKvGet(h.prev.Indexes, uint64(hi.Local)); ok {
 					continue
 				}
-				if _, ok := kvGet(h.prev.PIdx, uint64(hi.Local)); ok {
+				if _, ok := hmKvGet(h.prev.PIdx, uint64(hi.Local)); ok {
 					continue
 				}
 				reuse = append(reuse, hi.Local)
@@ -613,7 +613,7 @@ func (h *hmHist) emit(cw *hx.CaseWriter, ctor, label string) {
 	if kind == "" {
 		kind = h.kind()
 	}
-	cw.Add(hx.App(ctor, hx.List(h.steps), dumpLit(h.prev)), kind, nfeat >= 2,
+	cw.Add(hx.App(ctor, hx.List(h.steps), hmDumpLit(h.prev)), kind, nfeat >= 2,
 		map[string]any{"ops": h.ops, "stale_delete_on_reused_index_at": h.unsafeAt, "peers": h.peers})
 }
 
@@ -623,7 +623,7 @@ func hmCorpus(c *hx.Ctx, cw *hx.CaseWriter) {
 	max := int(nebula.VerifMaxHostInfosPerVpnIp)
 	// 1. per-address cap: max+2 tunnels on one address, then delete primary / middle / evicted, promote a removed one
 	{
-		h := newHist(c, 50)
+		h := hmNewHist(c, 50)
 		for i := 0; i < max+2; i++ {
 			h.opResp([]uint64{1}, uint32(i+1), []uint32{uint32(10 + i)})
 		}
@@ -637,7 +637,7 @@ func hmCorpus(c *hx.Ctx, cw *hx.CaseWriter) {
 	}
 	// 2. overlapping and divergent multi-address certificates, duplicates inside one certificate
 	{
-		h := newHist(c, 50)
+		h := hmNewHist(c, 50)
 		h.opResp([]uint64{1, 2}, 1, []uint32{1})
 		h.opResp([]uint64{2, 3}, 2, []uint32{2})
 		h.opResp([]uint64{3, 1, 3}, 3, []uint32{3})
@@ -653,7 +653,7 @@ func hmCorpus(c *hx.Ctx, cw *hx.CaseWriter) {
 	}
 	// 3. eviction through a multi-address tunnel: the oldest of address 1 also holds 2 and 3
 	{
-		h := newHist(c, 50)
+		h := hmNewHist(c, 50)
 		h.opResp([]uint64{1, 2, 3}, 1, []uint32{1})
 		h.opAddRelay(1, 5, []uint32{9})
 		for i := 0; i < max; i++ {
@@ -665,7 +665,7 @@ func hmCorpus(c *hx.Ctx, cw *hx.CaseWriter) {
 	}
 	// 4. the 32-try limit of allocateIndex and AddRelay: 31 collisions then a free index, 32 collisions
 	for _, k := range []int{31, 32} {
-		h := newHist(c, 50)
+		h := hmNewHist(c, 50)
 		h.opResp([]uint64{1}, 1, []uint32{5})
 		h.opStart(2)
 		h.opStart(3)
@@ -688,7 +688,7 @@ func hmCorpus(c *hx.Ctx, cw *hx.CaseWriter) {
 	}
 	// 5. pending life cycle: start twice, allocate, responder collides with the pending index, timeout, reuse
 	{
-		h := newHist(c, 50)
+		h := hmNewHist(c, 50)
 		h.opStart(1)
 		h.opStart(1)
 		h.opAlloc(1, []uint32{0, 3})
@@ -710,7 +710,7 @@ func hmCorpus(c *hx.Ctx, cw *hx.CaseWriter) {
 // relay index and through the pending index map.
 func hmWitness(c *hx.Ctx, cw *hx.CaseWriter) {
 	{
-		h := newHist(c, 50)
+		h := hmNewHist(c, 50)
 		h.opResp([]uint64{1}, 1, []uint32{5})
 		h.opDelete(1)
 		h.opResp([]uint64{2}, 2, []uint32{5})
@@ -719,7 +719,7 @@ func hmWitness(c *hx.Ctx, cw *hx.CaseWriter) {
 		h.emit(cw, "CHist", "corpus-stale-indexes")
 	}
 	{
-		h := newHist(c, 50)
+		h := hmNewHist(c, 50)
 		h.opResp([]uint64{1}, 1, []uint32{5})
 		h.opAddRelay(1, 9, []uint32{7})
 		h.opDelete(1)
@@ -730,7 +730,7 @@ func hmWitness(c *hx.Ctx, cw *hx.CaseWriter) {
 		h.emit(cw, "CHist", "corpus-stale-relays")
 	}
 	{
-		h := newHist(c, 50)
+		h := hmNewHist(c, 50)
 		h.opResp([]uint64{1}, 1, []uint32{5})
 		h.opDelete(1)
 		h.opStart(2)
@@ -756,7 +756,7 @@ func runHostmap(c *hx.Ctx, idxHeavy bool) {
 		} else if c.Chance(0.3) {
 			space = 8 + c.Intn(8)
 		}
-		h := newHist(c, space)
+		h := hmNewHist(c, space)
 		h.makePeers()
 		n := 40 + c.Intn(21)
 		for j := 0; j < n; j++ {
